@@ -113,13 +113,16 @@ def run(ctx, selftest=False):
     ctx.cov['model'] = {'lazy_hosts_states': r.distinct, 'eager_hosts_violate': r2.violated}
 
     timing = ['-timing', '-report-all']
-    benches = ['fir', 'memcopy', 'matrixtranspose', 'bitonicsort']
+    benches = ['multiqueue', 'fir', 'memcopy', 'matrixtranspose', 'bitonicsort']
     if thorough:
         benches += ['kmeans', 'vectoradd']
     cases = []
     for b in benches:
         plats = [('r9nano', timing)]
-        if thorough:
+        if b in ('multiqueue', 'fir'):
+            # several command queues busy in the same driver tick (plain multi-GPU runs use one queue per GPU)
+            plats.append(('r9nano-2gpu', timing + ['-gpus', '1,2']))
+        elif thorough:
             plats.append(('r9nano-2gpu', timing + ['-gpus', '1,2']))
             if b in ('fir', 'memcopy', 'vectoradd'):
                 plats.append(('mi300a', timing + ['-gpu', 'mi300a']))
@@ -131,13 +134,16 @@ def run(ctx, selftest=False):
             grp.append({'mode': 'eager', 'gomaxprocs': 16})
             for k in range(4 if thorough else 1):
                 grp.append({'mode': 'noise', 'gomaxprocs': 2 + 6 * (k % 2), 'vseed': ctx.seed * 10 + k})
-            if thorough:
+            if thorough or b == 'multiqueue':
                 grp.append({'mode': 'free', 'gomaxprocs': 2})
+                grp.append({'mode': 'free', 'gomaxprocs': 4})
             for g in grp:
                 g.update({'bench': b, 'platform': pname, 'flags': flags, 'timing': True, 'group': b + '/' + pname})
             cases += grp
         # emulation: buffers only
         for gm in (16, 1):
+            if b == 'multiqueue' and os.environ.get('VERIF_C05_NO_EMU_MULTIQUEUE'):
+                continue
             cases.append({'bench': b, 'platform': 'emu', 'flags': [], 'mode': 'free', 'gomaxprocs': gm, 'timing': False,
                           'group': b + '/emu'})
         if thorough:
